@@ -122,6 +122,26 @@ def gen_script(ctx, W, t, n, plan_hint, plan_det=True):
                         "det": determined(W, abs_of[sref], c)})
             states.append(len(ops) - 1)
             abs_of[len(ops) - 1] = predict(W, abs_of[sref], c, flags)
+        elif k == 7 and operators and t.chance(1, 2):
+            # an old operator answers a query about a short-lived copy of one state, the copy is released, and the
+            # operator is then applied to a fresh copy of another state
+            oref, c = t.pick(operators)
+            a_ref, b_ref = t.pick(states), t.pick(states)
+
+            def app(ref):
+                try:
+                    return abs_of[ref] is not None and interp.applicable(abs_of[ref], W.action(c[0]), c[1], W.D, W.objs)
+                except interp.Undefined:
+                    return None
+            yes = [r for r in states if app(r) is True]
+            no = [r for r in states if app(r) is False]
+            if yes and no and t.chance(2, 3):  # the interesting shape: query where applicable, apply where it is not
+                a_ref, b_ref = t.pick(yes), t.pick(no)
+            flags = FLAGS[0] if t.chance(1, 2) else FLAGS[t.draw(4)]
+            ops.append({"kind": "reapply_tmp", "op": oref, "state": b_ref, "state2": a_ref, "call": c, "flags": flags,
+                        "det": determined(W, abs_of[b_ref], c)})
+            states.append(len(ops) - 1)
+            abs_of[len(ops) - 1] = predict(W, abs_of[b_ref], c, flags)
         elif k == 7:
             sref = t.pick(states)
             c = G.gen_call(t, W.D, W.P)
@@ -194,12 +214,12 @@ def deps(ops, i):
             return
         need.add(j)
         o = ops[j]
-        for key in ("state", "op"):
+        for key in ("state", "op", "state2"):
             if key in o:
                 visit(o[key])
 
     o = ops[i]
-    for key in ("state", "op"):
+    for key in ("state", "op", "state2"):
         if key in o:
             visit(o[key])
     return sorted(need)
@@ -228,6 +248,25 @@ def exec_op(env, ops, i, store):
         ent = store.get(ref)
         return ent.get("state") if ent else None
 
+    if k == "reapply_tmp":
+        st, other = state_of(o["state"]), state_of(o["state2"])
+        ent = store.get(o["op"])
+        op = ent.get("op") if ent else None
+        if st is None or other is None or op is None:
+            return ("skipped",)
+        store[i] = {"op": op}
+        try:
+            tmp = other.copy()
+            op.is_applicable(tmp)
+            del tmp
+            fresh = st.copy()
+            r = op.apply(fresh, allow_inapplicable_actions=o["flags"][0], skip_validation=o["flags"][1])
+        except schedmod.SimCancel:
+            raise
+        except Exception as e:
+            return ("exc", type(e).__name__)
+        store[i]["state"] = r
+        return ("state", C.abs_state(r, "Operator.apply", ID))
     if k in ("apply", "reapply"):
         st = state_of(o["state"])
         if st is None:
@@ -581,16 +620,17 @@ def in_state_abs(base, scripts, ti, sref, W):
 
 def describe(o):
     k = o["kind"]
-    if k in ("apply", "reapply"):
+    if k in ("apply", "reapply", "reapply_tmp"):
         return f"{k} {C.fmt_call(*o['call'])} on state<{o['state']}> flags={o['flags']}" + (
-            f" operator<{o['op']}>" if k == "reapply" else "")
+            f" operator<{o['op']}>" if k != "apply" else "") + (
+            f" after a query on a released copy of state<{o['state2']}>" if k == "reapply_tmp" else "")
     if "call" in o:
         return f"{k} {C.fmt_call(*o['call'])}" + (f" how={o['how']}" if "how" in o else "")
     return k + "".join(f" {a}={o[a]}" for a in ("action", "how", "state") if a in o)
 
 
 def op_site(o):
-    return {"apply": "Operator.apply", "reapply": "Operator.apply (re-used operator)", "applicable": "Operator.is_applicable",
+    return {"apply": "Operator.apply", "reapply": "Operator.apply (re-used operator)", "reapply_tmp": "Operator.apply (re-used operator)", "applicable": "Operator.is_applicable",
             "ground": "Operator.ground", "print_action": "Action printers", "export_domain": "DomainExporter.extract_domain",
             "export_problem": "ProblemExporter.extract_problem", "trajectory": "TrajectoryExporter.parse_plan",
             "locate": "MultiAgentDomainsConverter.locate_domains"}.get(o["kind"], o["kind"])
